@@ -704,12 +704,22 @@ impl Resolution<'_> {
                 first,
                 second,
                 source,
-            } => Error::InstantiationArgMergeFailure {
-                name: import,
-                span: self.instantiation_spans[&second],
-                instantiation: self.instantiation_spans[&first],
-                source,
-            },
+            } => {
+                // Either node may also be an explicit import on the same semver track
+                let span = |node| {
+                    self.instantiation_spans
+                        .get(&node)
+                        .or_else(|| self.import_spans.get(&node))
+                        .copied()
+                        .expect("conflicting node should have a span")
+                };
+                Error::InstantiationArgMergeFailure {
+                    name: import,
+                    span: span(second),
+                    instantiation: span(first),
+                    source,
+                }
+            }
         })
     }
 
